@@ -87,6 +87,26 @@ def _ord2ymd_raw(n):
     return ite(last, year - 1, year), ite(last, 12, month), ite(last, 31, day)
 
 
+def succ_day(y, m, d):
+    """(y, m, d) + 1 day on the fields (no ordinal round trip); == ord2ymd(ymd2ord(y,m,d)+1), which is
+    discharged as a kernel obligation by the C15 check ('model lemma' cases)"""
+    last = d == days_in_month(y, m)
+    dec = m == 12
+    return ite(AND(last, dec), y + 1, y), ite(last, ite(dec, 1, m + 1), m), ite(last, 1, d + 1)
+
+
+def pred_day(y, m, d):
+    first = d == 1
+    jan = m == 1
+    yp, mp = ite(jan, y - 1, y), ite(jan, 12, m - 1)
+    return ite(first, yp, y), ite(first, mp, m), ite(first, days_in_month(yp, mp), d - 1)
+
+
+def memo_put(triple, n):
+    if is_sym(*triple):
+        _ORDMEMO[(id(triple[0]), id(triple[1]), id(triple[2]))] = (n, triple)
+
+
 def sym_year(name, lo=MINYEAR, hi=MAXYEAR):
     """Symbolic year as mixed-radix digits of (year-1) = 400c+100b+4a+e.  Digit ranges are
     tightened as far as lo..hi allows (windows inside one 400/100/4-year block give tight
@@ -108,6 +128,8 @@ def sym_year(name, lo=MINYEAR, hi=MAXYEAR):
     e = sym_int(name + "_e", e_lo, e_hi)
     y = c * 400 + b * 100 + a * 4 + e + 1
     eng().assume(AND(y >= lo, y <= hi))
+    if lo == hi:
+        return lo            # single-year window: concrete (the digit inputs exist for the replay model)
     return y
 
 
